@@ -375,7 +375,8 @@ let handle (case : string) (out : string) : unit =
     run "C03" "bring_up" (c03_monitor_ra conf tsteps);
     run "C04" "process_image" (c04_monitor_ra conf !obs0 tsteps);
     run "C08" "fcb_retry" (c08_monitor_ra conf tsteps);
-    run "C14" "cycle_events" (c14_monitor_ra conf !hs0 tsteps);
+    (* = c14_monitor_ra, except that Diagnostics events the property does not constrain are tolerated *)
+    run "C14" "cycle_events" (c14_monitor_lenient conf !hs0 tsteps);
     run "C14" "turn_skipped_on_high_prio" (c14_silent_none_monitor tsteps);
     let conf_end = conf_after conf tsteps in
     let slowest = int_of_nat (max_ready_delay tsteps) in
